@@ -13,6 +13,7 @@ import hashlib
 import importlib
 import json
 import os
+import signal
 import random
 import re
 import subprocess
@@ -37,6 +38,49 @@ TRUSTED_BASE = [
     "correspondence harness: generators, canonicalisation, exact-rational encoding of floats",
     "NumPy / SciPy / scikit-learn / pycma / matplotlib as libraries (not verified)",
 ]
+
+
+class CaseTimeout(BaseException):
+    """raised by the per-case watchdog (a BaseException so that no `except Exception` in a check swallows it)"""
+
+
+_ALARM = {"fired": False}
+
+
+def _outer_limit(tier):
+    """limit for what a check does outside its generated cases (set-up, warm-up calls, summaries)"""
+    return float(os.environ.get("VERIF_SETUP_TIMEOUT", "600" if tier == "quick" else "3600"))
+
+
+def _case_alarm(signum, frame):
+    # fires again every second until the case is abandoned: extension code (numba's dispatcher) turns the first
+    # exception into a SystemError, and a check may catch what a library call raises and carry on
+    _ALARM["fired"] = True
+    raise CaseTimeout()
+
+
+def bounded(fn, seconds, tier="quick"):
+    """Run a set-up call (a numba warm-up, say) under its own short limit; False if it did not return in time.  The
+    generated cases then meet the same hang under the per-case watchdog and report it with a concrete case."""
+    try:
+        signal.signal(signal.SIGALRM, _case_alarm)
+        signal.setitimer(signal.ITIMER_REAL, seconds, 1.0)
+    except ValueError:
+        fn()
+        return True
+    try:
+        fn()
+        ok = not _ALARM["fired"]
+    except CaseTimeout:
+        ok = False
+    except Exception:   # pylint: disable=broad-except
+        if not _ALARM["fired"]:
+            raise
+        ok = False
+    finally:
+        signal.setitimer(signal.ITIMER_REAL, _outer_limit(tier), 1.0)
+        _ALARM["fired"] = False
+    return ok
 
 
 class Infra(Exception):
@@ -368,11 +412,40 @@ class Ctx:
         def run(case, _inner=inner_run):      # noqa: F811
             """An exception that escapes from the library while a check runs a generated (valid) case is a failing
             input for the property, not a harness error (harness bugs have no frame inside ribs/)."""
+            limit = float(os.environ.get("VERIF_CASE_TIMEOUT", "240" if self.tier == "quick" else "900"))
+            armed = False
             try:
-                return _inner(case)
+                signal.signal(signal.SIGALRM, _case_alarm)
+                _ALARM["fired"] = False
+                signal.setitimer(signal.ITIMER_REAL, limit, 1.0)
+                armed = True
+            except ValueError:          # not in the main thread: no watchdog
+                pass
+            def timed_out():
+                # a library call that never comes back on a valid case cannot meet any clause of the property
+                # (e.g. a resampling loop whose exit condition is gone); one case normally takes well under a second
+                f = Failure("oracle", f"[{self.prop_id}] the case did not finish within {limit:.0f} s: a call into the "
+                            f"library does not return on a generated valid case (non-termination)")
+                f.noshrink = True
+                return f
+
+            try:
+                res = _inner(case)
+                if armed:
+                    signal.setitimer(signal.ITIMER_REAL, 0)
+                fired, _ALARM["fired"] = _ALARM["fired"], False
+                return timed_out() if fired else res
             except Infra:
                 raise
+            except CaseTimeout:
+                signal.setitimer(signal.ITIMER_REAL, 0)
+                return timed_out()
             except Exception as e:      # pylint: disable=broad-except
+                if armed:
+                    signal.setitimer(signal.ITIMER_REAL, 0)
+                fired, _ALARM["fired"] = _ALARM["fired"], False
+                if fired:
+                    return timed_out()
                 f = library_failure(e, [self.prop_id], "the library, on a generated valid case,")
                 if f is None:
                     # the harness itself tripped over what the implementation returned (a missing key, an array of
@@ -383,6 +456,9 @@ class Ctx:
                                    f"returned: {type(e).__name__}: {str(e)[:160]} (at {os.path.basename(fr.filename)}:"
                                    f"{fr.lineno} in {fr.name})")
                 return f
+            finally:
+                if armed:       # back to the limit for whatever the check does between its cases
+                    signal.setitimer(signal.ITIMER_REAL, _outer_limit(self.tier), 1.0)
 
         nfail = 0
         t_start = time.time()
@@ -417,11 +493,14 @@ class Ctx:
             if fail.key is not None and fail.key in self.open_keys:
                 self.known_hits[fail.key] = self.known_hits.get(fail.key, 0) + 1
                 continue
-            small = shrink(case, run, fail, shrink_key)
-            fail2 = run(small) or fail
+            if getattr(fail, "noshrink", False):
+                small, fail2 = case, fail
+            else:
+                small = shrink(case, run, fail, shrink_key)
+                fail2 = run(small) or fail
             self.failures.append((fail2, small))
             nfail += 1
-            if nfail >= max_fail:
+            if nfail >= max_fail or getattr(fail, "noshrink", False):
                 break
 
     def _explore_parallel(self, name, gen, run, n_cases, nontrivial, shrink_key, max_fail, time_budget, corpus,
@@ -446,6 +525,10 @@ class Ctx:
                 self.known_hits[fail.key] = self.known_hits.get(fail.key, 0) + 1
                 return
             if nfail >= max_fail:
+                return
+            if "did not finish within" in fail.what:      # a watchdog failure is not shrunk (each try costs the limit)
+                self.failures.append((fail, case))
+                nfail = max_fail
                 return
             small = shrink(case, run, fail, shrink_key)
             self.failures.append((run(small) or fail, small))
@@ -765,13 +848,31 @@ def run_check(ctx, mod, argv):
         elif body.get("kind") == "obligation":
             print("replay: obligation replays need a full run")
     else:
+        def setup_hang():
+            ctx.failures.append((Failure("corr", f"[{prop_id}] a call into the library made by the check outside its "
+                                         f"generated cases (set-up / warm-up) did not return within "
+                                         f"{_outer_limit(ctx.tier):.0f} s"), {"stratum": "setup"}))
         try:
+            _ALARM["fired"] = False
+            signal.signal(signal.SIGALRM, _case_alarm)
+            signal.setitimer(signal.ITIMER_REAL, _outer_limit(ctx.tier), 1.0)
             mod.run(ctx)
+            signal.setitimer(signal.ITIMER_REAL, 0)
+            if _ALARM["fired"]:
+                setup_hang()
         except Infra:
+            signal.setitimer(signal.ITIMER_REAL, 0)
             raise
+        except CaseTimeout:
+            signal.setitimer(signal.ITIMER_REAL, 0)
+            setup_hang()
         except Exception:  # pylint: disable=broad-except
-            traceback.print_exc()
-            raise Infra("harness crashed (see traceback)")
+            signal.setitimer(signal.ITIMER_REAL, 0)
+            if _ALARM["fired"]:
+                setup_hang()
+            else:
+                traceback.print_exc()
+                raise Infra("harness crashed (see traceback)")
 
     # 4. classify
     oracle_fails = [(f, c) for f, c in ctx.failures if f.kind == "oracle"]
